@@ -29,3 +29,62 @@ pub fn par_map<T: Sync, R: Send, F: Fn(usize, &T) -> R + Sync>(items: &[T], f: F
     });
     out.into_inner().unwrap().into_iter().map(|x| x.expect("worker result")).collect()
 }
+
+/// Process-level sharding for engines that use process-global shim state (effect log, fault
+/// slots, logical clock). The parent re-executes the current binary `n` times with
+/// `VERIF_WORKER=<i>/<n>`; each worker writes one JSON value to the file named by
+/// `VERIF_WORKER_OUT`. Returns the workers' values in shard order; a worker that dies is a
+/// machinery error (exit 2), never a verdict.
+pub fn worker_id() -> Option<(usize, usize)> {
+    let v = std::env::var("VERIF_WORKER").ok()?;
+    let (a, b) = v.split_once('/')?;
+    Some((a.parse().ok()?, b.parse().ok()?))
+}
+
+pub fn run_workers(n: usize, extra_env: &[(&str, String)]) -> Vec<serde_json::Value> {
+    let exe = std::env::current_exe().expect("current_exe");
+    let args: Vec<String> = std::env::args().skip(1).collect();
+    let dir = format!("/dev/shm/kyverif.workers.{}", std::process::id());
+    let _ = std::fs::create_dir_all(&dir);
+    let mut children = Vec::new();
+    for i in 0..n {
+        let out = format!("{dir}/w{i}.json");
+        let mut c = std::process::Command::new(&exe);
+        c.args(&args)
+            .env("VERIF_WORKER", format!("{i}/{n}"))
+            .env("VERIF_WORKER_OUT", &out)
+            .env("RAYON_NUM_THREADS", "1");
+        for (k, v) in extra_env {
+            c.env(k, v);
+        }
+        let child = c.spawn().expect("spawn worker");
+        children.push((child, out));
+    }
+    let mut res = Vec::new();
+    let mut failed = false;
+    for (i, (mut child, out)) in children.into_iter().enumerate() {
+        let st = child.wait().expect("wait worker");
+        if !st.success() {
+            eprintln!("worker {i} exited with {st:?} (machinery error)");
+            failed = true;
+            continue;
+        }
+        match std::fs::read_to_string(&out).ok().and_then(|s| serde_json::from_str(&s).ok()) {
+            Some(v) => res.push(v),
+            None => {
+                eprintln!("worker {i} produced no result (machinery error)");
+                failed = true;
+            }
+        }
+    }
+    let _ = std::fs::remove_dir_all(&dir);
+    if failed {
+        std::process::exit(2);
+    }
+    res
+}
+
+pub fn worker_emit(v: &serde_json::Value) {
+    let out = std::env::var("VERIF_WORKER_OUT").expect("VERIF_WORKER_OUT");
+    std::fs::write(&out, serde_json::to_string(v).unwrap()).expect("write worker result");
+}
